@@ -196,12 +196,16 @@ Section Serve.
     end.
 
   (* isLocalRedirectPath *)
-  Definition local_path (p : istr) : bool :=
-    match bytes_of E p with
+  Definition printable (c : N) : bool := N.leb 32 c && negb (N.eqb c 127).
+
+  Definition local_path_bytes (b : list N) : bool :=
+    match b with
     | 47%N :: [] => true
-    | 47%N :: c :: _ => negb (N.eqb c 47 || N.eqb c 92)
+    | 47%N :: c :: _ => negb (N.eqb c 47 || N.eqb c 92) && forallb printable b
     | _ => false
     end.
+
+  Definition local_path (p : istr) : bool := local_path_bytes (bytes_of E p).
 
   (* extractGroupsAndRoles *)
   Fixpoint strings_of (l : list (option istr)) : list istr :=
